@@ -234,8 +234,11 @@ def render_pieces(ps):
     return out
 
 
-def render_pi(p):
-    return "<?" + p[1] + ("" if p[2] is None else " " + p[2]) + "?>"
+def render_pi(p, st=None):
+    # the white space between target and data is a separator of ANY length and kind (production [16]: S); it never belongs
+    # to the data (round-6 seed C01-G read one character of it only)
+    sep = " " if st is None else st.ws1()
+    return "<?" + p[1] + ("" if p[2] is None else sep + p[2]) + "?>"
 
 
 def render_item(it, st):
@@ -249,7 +252,7 @@ def render_item(it, st):
     if k == "C":
         return "<!--" + it[1] + "-->"
     if k == "P":
-        return render_pi(it)
+        return render_pi(it, st)
     _, name, attrs, kids = it
     s = "<" + name
     for an, ps in attrs:
@@ -304,7 +307,7 @@ def render_dtd_item(it, st):
         return "<!ELEMENT" + st.ws1() + it[1] + st.ws1() + it[2] + st.ws0() + ">"
     if k == "DC":
         return "<!--" + it[1] + "-->"
-    return render_pi(it)
+    return render_pi(it, st)
 
 
 def render(doc, st):
